@@ -551,3 +551,21 @@ CASES.append({'name': 'argmin-reversed-comparator', 'props': ['C16'], 'expect': 
               'edits': [('oxmpl/src/geometric/planners/rrt.rs', 'a.partial_cmp(b).unwrap_or(Ordering::Equal)', 'b.partial_cmp(a).unwrap_or(Ordering::Equal)')]})
 CASES.append({'name': 'argmin-skips-root', 'props': ['C16'], 'expect': ['C16.nearest'], 'patch': '/verif/selftest/benign/ben17-r1.diff',
               'edits': [('oxmpl/src/geometric/planners/rrt.rs', '            .enumerate()\n            .map(|(index, node)|', '            .enumerate()\n            .skip(1)\n            .map(|(index, node)|')]})
+
+# ---------------------------------------------------------------- round 8
+seeded('seeded-R8C01-accumulated-parameter-loop', ['C01', 'C03'], ['C01.kernel'])
+seeded('seeded-R8C03-step-count-from-max-distance', ['C03'], ['C03.res'])
+seeded('seeded-R8C04-so3-lerp-no-flip-leaves-cone', ['C04', 'C10'], ['C10.repr'])
+seeded('seeded-R8C07-bias-doubles-after-half-time', ['C07', 'C16'], ['C07.clock'])
+seeded('seeded-R8C08-early-exit-before-parent-entry', ['C08', 'C02'], ['C02.goal'])
+seeded('seeded-R8C09-rn-1d-signed-distance', ['C09'], ['C09.range'])
+seeded('seeded-R8C10-threshold-on-signed-dot', ['C10'], ['C10.repr'])
+seeded('seeded-R8C13-se2-drops-wide-yaw-bounds', ['C13'], ['C13.se'])
+seeded('seeded-R8C14-rn-halves-around-zero', ['C14'], ['C14.draw'])
+seeded('seeded-R8C15-double-subtracted-improvement', ['C15', 'C17'], ['C17.rewire'])
+for _k in (1, 2, 3, 4, 5):
+    benign_patch('ben20-r%d' % _k, ALL)                         # shared helpers in planners/mod.rs: is_motion_valid, nearest_node (fold + state_of closure), steer, take_or_create_rng, TreeNode + branch_states
+    benign_patch('ben21-r%d' % _k, ALL)                         # performance edits: by-reference scans, cost_via(&S, ..), goal mask + reserved queue, borrowed q_near, fused sums / zips
+    benign_patch('ben22-r%d' % _k, ALL)                         # additive API: derives, Path::length, roadmap accessors, iteration counter, debug_assert!s
+CASES.append({'name': 'goal-mask-negated', 'props': ['C02', 'C18'], 'expect': ['C02.goal'], 'patch': '/verif/selftest/benign/ben21-r3.diff',
+              'edits': [('oxmpl/src/geometric/planners/prm.rs', '.map(|node| goal.is_satisfied(&node.state))', '.map(|node| !goal.is_satisfied(&node.state))')]})
